@@ -11,7 +11,7 @@ TRUSTED_BASE = [
 ]
 
 
-HOOK_COMMITS = ["30e20bd", "42a3e10", "f48b181"]
+HOOK_COMMITS = ["30e20bd", "42a3e10", "f48b181", "076be68"]
 
 
 def always(*_a):
@@ -285,7 +285,7 @@ PROPS = {
     ),
     "C06": dict(
         audit_modules=["RodbusModel.Audit.C06"],
-        required_theorems=["Rodbus.C06.format_crc", "Rodbus.C06.format_len_le", "Rodbus.C06.accept_sound",
+        required_theorems=["Rodbus.C06.length_mode_table_correct", "Rodbus.C06.format_crc", "Rodbus.C06.format_len_le", "Rodbus.C06.accept_sound",
                            "Rodbus.C06.rtu_chunking_independent", "Rodbus.C06.burst_detected",
                            "Rodbus.C06.single_bit_detected", "Rodbus.C06.double_bit_detected",
                            "Rodbus.C06.crc_trailer_zero_iff", "Rodbus.C06.corrupted_frame_crc_mismatch",
@@ -704,7 +704,7 @@ PROPS = {
     ),
     "C10": dict(
         audit_modules=["RodbusModel.Audit.C10"],
-        required_theorems=["Rodbus.Client.pending_partition", "Rodbus.Client.never_completed_twice", "Rodbus.Client.closed_trace_exactly_once",
+        required_theorems=["Rodbus.Client.session_ending_table_correct", "Rodbus.Client.pending_partition", "Rodbus.Client.never_completed_twice", "Rodbus.Client.closed_trace_exactly_once",
                            "Rodbus.Client.drained_exactly_once", "Rodbus.Client.error_meaning_noconn", "Rodbus.Client.error_meaning_timeout",
                            "Rodbus.Client.error_meaning_transport", "Rodbus.Client.error_meaning_shutdown_task",
                            "Rodbus.Client.error_meaning_shutdown_partial", "Rodbus.Client.drain_completes_partial"],
